@@ -519,6 +519,9 @@ def decode_seq(seq, encoding, errors='strict'):
         used('codec %s: decoding is a partial injective map on byte strings; UnicodeDecodeError possible for any input' % enc)
         if enc not in ('latin-1', 'latin1') and E.cur().choose('decode_error'):
             E.cur().overapprox.append('%s decode error (assumed raise-set)' % enc)
+            if enc == 'idna' and E.cur().choose('plain UnicodeError'):
+                # the idna codec reports malformed punycode labels with the base class UnicodeError
+                raise_(UnicodeError, 'label empty or too long / invalid punycode')
             raise_(UnicodeDecodeError, enc)
         return SStr(seq.copy('bytes'), enc)
     raise E.Unsupported('codec %s' % encoding)
@@ -832,8 +835,11 @@ for _name in ('append', 'insert', 'extend', 'items', 'keys', 'values', 'update',
 @model(datetime.datetime.utcfromtimestamp)
 def _utcfromtimestamp(ts):
     if isinstance(ts, (SInt, SBool)):
-        used('datetime.utcfromtimestamp(t): the naive-UTC instant t for 0 <= t < 2**32 (no error in that range)')
-        return SDateTime(as_int(ts), z3.IntVal(0), aware=False)
+        used('datetime.utcfromtimestamp(t): the naive-UTC instant t; ValueError for t outside [-62135596800, 253402300799]')
+        t = as_int(ts)
+        if E.cur().branch(z3.Or(t < -62135596800, t > 253402300799)):
+            raise_(ValueError, 'year is out of range')
+        return SDateTime(t, z3.IntVal(0), aware=False)
     return I.native(datetime.datetime.utcfromtimestamp, [ts], {})
 
 
@@ -842,8 +848,12 @@ def _fromtimestamp(ts, tz=None):
     if isinstance(ts, (SInt, SBool)):
         if tz is None:
             raise E.Unsupported('fromtimestamp without tz depends on the ambient time zone')
-        used('datetime.fromtimestamp(t, UTC): the aware instant t for 0 <= t < 2**32')
-        return SDateTime(as_int(ts), z3.IntVal(0), aware=True)
+        used('datetime.fromtimestamp(t, UTC): the aware instant t; ValueError (year out of range) for t outside '
+             '[-62135596800, 253402300799], OverflowError/OSError far beyond')
+        t = as_int(ts)
+        if E.cur().branch(z3.Or(t < -62135596800, t > 253402300799)):
+            raise_(ValueError, 'year is out of range')
+        return SDateTime(t, z3.IntVal(0), aware=True)
     return I.native(datetime.datetime.fromtimestamp, [ts] + ([tz] if tz is not None else []), {})
 
 
